@@ -397,6 +397,7 @@ def install(ex):
 REPLAY = {f"{U}._cache_units": "units_equiv.py", f"{U}.equivalent_units": "units_equiv.py", f"{U}.compatible_units": "units_equiv.py",
           f"{U}.to_units": "units_equiv.py", "finam.data.tools.core.prepare": "bnd_prepare.py"}
 BOUNDED = {"C17": [{"name": "prepare-payload-forms", "script": "replay/drivers/bnd_prepare.py", "args": ["--json"], "timeout": 600},
-                   {"name": "units-catalogue", "script": "replay/drivers/bnd_units.py", "args": ["--json"], "timeout": 600}]}
+                   {"name": "units-catalogue", "script": "replay/drivers/bnd_units.py", "args": ["--json"], "timeout": 600},
+                   {"name": "metadata-products", "script": "replay/drivers/bnd_info.py", "args": ["--json"], "timeout": 600}]}
 EXPLAIN = {"C17": "VCs from the real _cache_units / compatible_units / equivalent_units / clear_units_cache / to_units against dimensional analysis "
                   "(pint assumed: DIM, FAC, OFF); the memo cache is module state with the invariant 'every entry equals a fresh computation'"}
